@@ -91,6 +91,9 @@ func (f *c20File) yaml(fi int) string {
 	return b.String()
 }
 
+var c20LabelPool = [][]string{{"ubuntu-latest"}, {"ubuntu-latest"}, {"ubuntu-latest"}, {"windows-latest"}, {"Windows-2022"}, {"self-hosted", "Windows", "X64"},
+	{"self-hosted", "windows"}, {"WINDOWS"}, {"self-hosted", "Linux", "X64"}, {"macos-latest"}, {"windowsx"}, {"my-windows-box"}, {"self-hosted", "WINDOWS-gpu"}}
+
 func effShell(step, job, wf string, windows bool) string {
 	if step != "" {
 		return step
@@ -199,6 +202,26 @@ func runC20(c *ctx, r *Report) error {
 		failures := rng.Intn(3) == 0 // only a third of the sets contain failing invocations
 		big := set == 1
 		var files []*c20File
+		// directed set: no default shell at workflow or job level, one job per runner-label spelling, steps without and with
+		// their own shell: the runner default decides
+		if set == 2 {
+			nFiles = 0
+			f := &c20File{}
+			for _, lbls := range c20LabelPool {
+				j := c20Job{labels: lbls}
+				for _, l := range lbls {
+					ll := strings.ToLower(l)
+					if ll == "windows" || strings.HasPrefix(ll, "windows-") {
+						j.windows = true
+					}
+				}
+				for _, sh := range []string{"", "bash", "", "python"} {
+					j.steps = append(j.steps, c20Step{shell: sh, directive: "ok", sleepMs: 1, script: "echo hello"})
+				}
+				f.jobs = append(f.jobs, j)
+			}
+			files = append(files, f)
+		}
 		for fi := 0; fi < nFiles; fi++ {
 			f := &c20File{defShell: shells[rng.Intn(6)], defWD: rng.Intn(3) == 0}
 			nj := 1 + rng.Intn(3)
@@ -206,9 +229,7 @@ func runC20(c *ctx, r *Report) error {
 				j := c20Job{defShell: shells[rng.Intn(6)], defWD: rng.Intn(3) == 0}
 				// runner labels: GitHub-hosted names and the labels of self-hosted runners (GitHub spells the default ones
 				// `self-hosted`, `Windows`, `Linux`, `X64`), and names that merely contain the word
-				pool := [][]string{{"ubuntu-latest"}, {"ubuntu-latest"}, {"ubuntu-latest"}, {"windows-latest"}, {"Windows-2022"}, {"self-hosted", "Windows", "X64"},
-					{"self-hosted", "windows"}, {"WINDOWS"}, {"self-hosted", "Linux", "X64"}, {"macos-latest"}, {"windowsx"}, {"my-windows-box"}, {"self-hosted", "WINDOWS-gpu"}}
-				j.labels = pool[rng.Intn(len(pool))]
+				j.labels = c20LabelPool[rng.Intn(len(c20LabelPool))]
 				for _, l := range j.labels {
 					ll := strings.ToLower(l)
 					if ll == "windows" || strings.HasPrefix(ll, "windows-") {
